@@ -106,10 +106,11 @@ func (self *LongWaitLockFreeQueue) Len() int {
 type MillisecondWaitLockQueue struct {
 	LockQueue
 	freeTime int64
+	ms       int64
 }
 
 func NewMillisecondWaitLockQueue(baseNodeSize int32, nodeSize int32, queueSize int32) *MillisecondWaitLockQueue {
-	return &MillisecondWaitLockQueue{*NewLockQueue(baseNodeSize, nodeSize, queueSize), 0}
+	return &MillisecondWaitLockQueue{*NewLockQueue(baseNodeSize, nodeSize, queueSize), 0, 0}
 }
 
 type MillisecondWaitLockFreeQueue struct {
@@ -1788,8 +1789,15 @@ func (self *LockDB) AddMillisecondTimeOut(lock *Lock) {
 	ms := time.Now().UnixNano()/1e6 + int64(lock.command.Timeout%MILLISECOND_QUEUE_LENGTH)
 
 	lockQueue := self.millisecondTimeoutLocks[lock.manager.glockIndex][ms%MILLISECOND_QUEUE_LENGTH]
+	for i := 0; i < MILLISECOND_QUEUE_LENGTH && lockQueue != nil && lockQueue.ms != ms; i++ {
+		// the slot still holds the queue of the millisecond one wheel turn earlier (its goroutine has not run yet):
+		// file this timer one millisecond later instead of letting it fire with that queue
+		ms++
+		lockQueue = self.millisecondTimeoutLocks[lock.manager.glockIndex][ms%MILLISECOND_QUEUE_LENGTH]
+	}
 	if lockQueue == nil {
 		lockQueue = self.freeMillisecondWaitQueues[lock.manager.glockIndex].GetLockQueue()
+		lockQueue.ms = ms
 		self.millisecondTimeoutLocks[lock.manager.glockIndex][ms%MILLISECOND_QUEUE_LENGTH] = lockQueue
 		go self.checkMillisecondTimeOut(ms, lock.manager.glockIndex)
 	}
@@ -1974,8 +1982,15 @@ func (self *LockDB) AddMillisecondExpried(lock *Lock) {
 	ms := time.Now().UnixNano()/1e6 + int64(lock.command.Expried%MILLISECOND_QUEUE_LENGTH)
 
 	lockQueue := self.millisecondExpriedLocks[lock.manager.glockIndex][ms%MILLISECOND_QUEUE_LENGTH]
+	for i := 0; i < MILLISECOND_QUEUE_LENGTH && lockQueue != nil && lockQueue.ms != ms; i++ {
+		// the slot still holds the queue of the millisecond one wheel turn earlier (its goroutine has not run yet):
+		// file this timer one millisecond later instead of letting it fire with that queue
+		ms++
+		lockQueue = self.millisecondExpriedLocks[lock.manager.glockIndex][ms%MILLISECOND_QUEUE_LENGTH]
+	}
 	if lockQueue == nil {
 		lockQueue = self.freeMillisecondWaitQueues[lock.manager.glockIndex].GetLockQueue()
+		lockQueue.ms = ms
 		self.millisecondExpriedLocks[lock.manager.glockIndex][ms%MILLISECOND_QUEUE_LENGTH] = lockQueue
 		go self.checkMillisecondExpried(ms, lock.manager.glockIndex)
 	}
